@@ -1,6 +1,6 @@
 """
 Reference implementation of FITS WCS Paper II zenithal projections (SIN/TAN/ZEA/ARC/STG) for
-rotation-free headers (CDELT or diagonal CD), LONPOLE = 180 (valid for |CRVAL2| < 90).
+rotation-free headers (CDELT or diagonal CD), LONPOLE = the standard's default (180, and 0 when CRVAL2 = +90) unless the header gives one.
 Written from the paper; shares no code with AegeanTools or astropy.
 
 pix2sky(header, p1, p2): p1 along NAXIS1 (column, 1-based), p2 along NAXIS2 (row, 1-based) -> (ra, dec) deg
@@ -47,6 +47,14 @@ def _R_of_colat(proj, g):
     raise ValueError(proj)
 
 
+def _lonpole(h, dec0):
+    """native longitude of the celestial pole (rad): the header's LONPOLE, else the standard's default for zenithal projections
+    (theta0 = 90): 0 when CRVAL2 >= 90, i.e. the reference point IS the north pole, else 180 deg (Paper II, section 2.2/2.5)"""
+    if "LONPOLE" in h:
+        return np.radians(float(h["LONPOLE"]))
+    return 0.0 if dec0 >= 90.0 else np.pi
+
+
 def pix2sky(h, p1, p2):
     proj, c1, c2, d1, d2, a0, dd0 = _params(h)
     x = np.radians(d1 * (np.asarray(p1, dtype=float) - c1))
@@ -55,7 +63,7 @@ def pix2sky(h, p1, p2):
     phi = np.arctan2(x, -y)
     g = _colat_of_R(proj, R)
     d0 = np.radians(dd0)
-    dphi = phi - np.pi  # phi - LONPOLE
+    dphi = phi - _lonpole(h, dd0)  # phi - LONPOLE
     A = np.sin(g) * np.cos(dphi)   # cos(theta) cos(phi - phi_p)
     B = np.sin(g) * np.sin(dphi)   # cos(theta) sin(phi - phi_p)
     C = np.cos(g)                  # sin(theta)
@@ -76,7 +84,7 @@ def sky2pix(h, ra, dec):
     s = -np.cos(d) * np.sin(a - a0)                                         # cos(theta) sin(phi - phi_p)
     c = np.sin(d) * np.cos(d0) - np.cos(d) * np.sin(d0) * np.cos(a - a0)    # cos(theta) cos(phi - phi_p)
     st = np.sin(d) * np.sin(d0) + np.cos(d) * np.cos(d0) * np.cos(a - a0)   # sin(theta)
-    phi = np.pi + np.arctan2(s, c)
+    phi = _lonpole(h, dd0) + np.arctan2(s, c)
     g = np.arctan2(np.hypot(s, c), st)
     R = _R_of_colat(proj, g)
     xr = R * np.sin(phi)
